@@ -331,8 +331,11 @@ def check_predicates(ctx=None):
                 for placement in ("inside", "after"):
                     free = "o" if direction == "s" else "s"
                     q = sparql(u, direction, placement, pred)
-                    got = {str(getattr(r, free)) for r in graph.query(q, processor=proc)}
+                    rows_ = list(graph.query(q, processor=proc))
+                    got = {str(getattr(r, free)) for r in rows_}
                     want = expected(model, u, OWL_SAMEAS) if pred in configured else set()
+                    if got == want and len(rows_) != len(want):
+                        fails.append(("sparql/graph/duplicate-rows", f"graph configured with predicates={config!r}: {q} -> {len(rows_)} rows for {len(want)} equivalents (a SPARQL answer is a multiset)"))
                     if ctx is not None:
                         ctx.count("transitions")
                         ctx.count("predicate_configurations")
